@@ -304,7 +304,12 @@ func TestC17Widths(t *testing.T) {
 	for w := uint(0); w <= 130; w++ {
 		ws = append(ws, w)
 	}
-	ws = append(ws, 255, 256, 257, 1<<16, 1<<31, 1<<32-1, 1<<32, 1<<32+6, 1<<63, ^uint(0), ^uint(0)-1)
+	ws = append(ws, 255, 256, 257, 1<<16, 1<<31, 1<<32-1, ^uint(0), ^uint(0)-1)
+	if big := uint64(^uint(0)); big > 1<<32 { // widths beyond 32 bits exist on 64-bit targets only
+		for _, w := range []uint64{1 << 32, 1<<32 + 6, 1 << 63} {
+			ws = append(ws, uint(w))
+		}
+	}
 	for _, w := range ws {
 		for _, fill := range []byte{0x00, 0x7f, 0xff} {
 			b := bytes.Repeat([]byte{fill}, 32)
